@@ -29,7 +29,7 @@ ASSUMPTIONS = [
 ]
 MANDATORY = ["join:outer", "join:inner", "sort:True", "axis:given", "rel:permuted", "rel:overlapping", "rel:disjoint", "rel:subset",
              "input:dataset", "input:scalar", "dim-in-one-input-only", "all-sorted-inc", "all-sorted-dec", "labels:int-vs-float", "labels:s",
-             "sort-on-unsorted", "inner:ordered-result-len>=2", "outer:ordered-result-len>=2", "no-fill:dtype-kept:i", "inputs:aligned-before-under-other-labels"]
+             "sort-on-unsorted", "inner:ordered-result-len>=2", "outer:ordered-result-len>=2", "no-fill:dtype-kept:i", "inputs:aligned-before-under-other-labels", "call:positional", "call:positional+axis"]
 
 
 def budget(tier):
@@ -65,7 +65,7 @@ def align_case(draw, allow_empty=False):
     if alld and draw(st.integers(0, 3)) == 0:
         axis = draw(st.sampled_from(alld))
     return {"inputs": inputs, "join": draw(st.sampled_from(["outer", "outer", "inner"])), "sort": draw(st.sampled_from([False, False, True])), "axis": axis,
-            "rehearse": draw(st.integers(0, 3)) == 0}
+            "rehearse": draw(st.integers(0, 3)) == 0, "positional": draw(st.integers(0, 3)) == 0}
 
 
 def strategy(tier):
@@ -205,7 +205,12 @@ def run_case(case):
     if axis is not None:
         kw["axis"] = axis
     what = "align(%s, join=%s, sort=%s, axis=%s)" % (core.jsonable([i.get("spec", i.get("v")) for i in inputs]), join, sort, axis)
-    res = lib(lambda: da.align(list(objs), join=join, sort=sort, **kw), what=what, sig=sig)
+    if case.get("positional"):
+        # the documented parameter order align(arrays, join, axis, sort), arguments given by position
+        what += " [join, axis, sort by position]"
+        res = lib(lambda: da.align(list(objs), join, axis, sort), what=what, sig=sig)
+    else:
+        res = lib(lambda: da.align(list(objs), join=join, sort=sort, **kw), what=what, sig=sig)
     check(isinstance(res, (list, tuple)) and len(res) == len(objs), "result-count", {"what": what, "got": len(res) if hasattr(res, "__len__") else None}, sig)
 
     # expected joined label sets per aligned dimension
@@ -304,6 +309,8 @@ def run_case(case):
             check(isinstance(out, da.DimArray) and out.ndim == 0 and core.same_scalar(out.values.item(), inp["v"]), "scalar-input", {"what": what, "got": core.brief(out)}, sig)
     if empty_axis:
         cl.add("empty-axis")
+    if case.get("positional"):
+        cl.add("call:positional" + ("+axis" if axis is not None else ""))
     if rehearse:
         cl.add("inputs:aligned-before-under-other-labels")
     return {"classes": sorted(cl), "nontrivial": nontrivial}
